@@ -1644,18 +1644,31 @@ rmdir(const char *path)
 	PATH_CALL("rmdir", real_rmdir(path), (void)0);
 }
 
+/*
+ * What mdsort reads from a successful stat(2): the directory bit (isdirectory) and the three times in
+ * seconds (date access|modified|created).
+ */
+#define LB_STAT(SB) do {						\
+	if (r == 0 && (SB) != NULL) {					\
+		lb_kv_i(&l, "isdir", S_ISDIR((SB)->st_mode) ? 1 : 0);	\
+		lb_kv_i(&l, "atime", (long long)(SB)->st_atim.tv_sec);	\
+		lb_kv_i(&l, "mtime", (long long)(SB)->st_mtim.tv_sec);	\
+		lb_kv_i(&l, "ctime", (long long)(SB)->st_ctim.tv_sec);	\
+	}								\
+} while (0)
+
 int
 stat(const char *path, struct stat *sb)
 {
 	REAL(stat);
-	PATH_CALL("stat", real_stat(path, sb), (void)0);
+	PATH_CALL("stat", real_stat(path, sb), LB_STAT(sb));
 }
 
 int
 stat64(const char *path, struct stat64 *sb)
 {
 	REAL(stat64);
-	PATH_CALL("stat", real_stat64(path, sb), (void)0);
+	PATH_CALL("stat", real_stat64(path, sb), LB_STAT(sb));
 }
 
 int
